@@ -91,7 +91,11 @@ def run_history(start, dt, kinds, compress, route, scenarios):
     shutil.rmtree(sd, ignore_errors=True)
     os.makedirs(sd)
     clock = srv.VClock().install()
-    label = "start=%r dt=%r steps=%r compress=%s route=%s scenarios=%r" % (start, dt, kinds, compress, route, scenarios)
+    order = "asc"
+    if route.endswith("/desc"):
+        route, order = route[:-len("/desc")], "desc"
+    srv.listdir_order(order)
+    label = "start=%r dt=%r steps=%r compress=%s route=%s listing=%s scenarios=%r" % (start, dt, kinds, compress, route, order, scenarios)
     try:
         factory = srv.make_factory(start, stop, dt)
         app, client = srv.make_server(factory, adapter=FileAdapter(compress, sd))
@@ -116,7 +120,27 @@ def run_history(start, dt, kinds, compress, route, scenarios):
         before_state = state_view(app._instance_manager._instances[iid]["instance"])
         before_order = inst_keys(app, iid)
         # ---- save / lose / restore
-        if route == "auto":
+        junk = route.endswith("+junk")
+        if junk:
+            # two files in the state directory that are no instance states; whichever way the directory is listed one comes first
+            route = route[:-len("+junk")]
+            client.get("/save-state")
+            for nm in ("00000000junk.json", "zzzzzzzzjunk.json"):
+                with open(os.path.join(sd, nm), "w") as fh:
+                    fh.write('{"data": {"state": "{\\"settings_log')
+        if route in ("explicit-after-end", "explicit-after-begin"):
+            # the live instance changes after its state was saved (no step: nothing is written); load-state brings the saved session back
+            r = client.get("/save-state")
+            if route == "explicit-after-end":
+                client.post("/%s/end-session" % iid)
+            else:
+                client.post("/%s/begin-session" % iid, json={"scenario_managers": [SM], "scenarios": list(scenarios), "equations": ["S"]})
+            r = client.post("/load-state")
+            if r.status_code != 200:
+                viol.append(("load-state-status", "%s: %d %r" % (label, r.status_code, str(srv.body(r))[:200])))
+                return viol
+            app2, client2 = app, client
+        elif route == "auto":
             clock.advance(minutes=11)
             client.get("/full-metrics")                 # sweep: the instance leaves memory
             if iid in app._instance_manager._instances:
@@ -166,6 +190,7 @@ def run_history(start, dt, kinds, compress, route, scenarios):
         viol.append(("harness-path-raises/%s" % type(e).__name__, label + " " + traceback.format_exc()[-400:]))
     finally:
         clock.uninstall()
+        srv.listdir_order("asc")
         shutil.rmtree(sd, ignore_errors=True)
     return viol
 
@@ -185,6 +210,12 @@ def jobs(tier):
                 if n <= 2:
                     out.append((st, dt, list(kinds), True, "restart", ["base", "alt"]))
                     out.append((st, dt, list(kinds), False, "auto", ["base", "alt"]))
+    # the live instance changed after the save; files that are no states in the directory, listed first
+    for (st, dt) in ((0, 1), (0.5, 0.5)):
+        for kinds in (["v1"], ["nobody", "v2p"], ["v1", "empty", "nobody"]):
+            for compress in (False, True):
+                for route in ("explicit-after-end", "explicit-after-begin", "explicit+junk", "explicit+junk/desc", "restart+junk", "restart+junk/desc"):
+                    out.append((st, dt, list(kinds), compress, route, ["base"]))
     # requests that take several steps with one settings object
     for (st, dt) in ((0, 1), (0.5, 0.5)):
         for n in (1, 2):
@@ -229,7 +260,7 @@ def run(ctx):
         "states": len(js), "transitions": sum(len(j[2]) + 6 for j in js), "traces_validated_against_impl": len(js),
         "samples": [list(j) for j in js[:2]] + [list(js[len(js) // 2])],
         "rule": "histories: run spec x n <= %d steps x every sequence over {no body, {}, constants, constants+points} x compress {off,on} x route "
-                "{auto save + lazy restore after a time-out, save-state/load-state, new server on the same directory} x {1, 2} scenarios; plus histories with run-steps requests of 2-3 steps; states = histories, "
+                "{auto save + lazy restore after a time-out, save-state/load-state, new server on the same directory} x {1, 2} scenarios; load-state after the live instance changed; unreadable files listed before the states (both listing orders); plus histories with run-steps requests of 2-3 steps; states = histories, "
                 "transitions = requests" % (3 if ctx.tier == "quick" else 4),
     }, assumptions=["FileAdapter only", "logs are compared after JSON key normalisation (float keys are stringified by jsonpickle)"])
 
